@@ -25,6 +25,7 @@ def bases(atom):
     """Frame columns an atom (or any formula text) mentions."""
     text = re.sub(r"'[^']*'|\"[^\"]*\"", "", atom)  # drop string literals
     text = re.sub(r"\[[^\]]*\]", "", text)  # and level subscripts such as u[p]
+    text = re.sub(r"[A-Za-z_][\w.]*\s*\(", "(", text)  # and function names such as p(...) or np.log(...)
     return set(_NAME.findall(text))
 
 
